@@ -464,8 +464,9 @@ def reorder_rule(ctx, o):
     cfg = cfg_of(f)
     eff = Effects(prog, ctx.typer, ctx.cg)
     ws = [w for w in eff.direct_writes(f) if w.field == '_list']
-    stores = [w for w in ws if w.kind == 'store']
-    muts = [w for w in ws if w.kind != 'store']
+    repl = {id(st) for st, v, inplace in T.list_replacements(f)}
+    stores = [w for w in ws if w.kind == 'store' or id(w.node) in repl]
+    muts = [w for w in ws if w not in stores]
     if muts:
         o.refute(f, muts[0].node, muts[0].node, "reorder changes the live child list in place before all lookups are done: a missing or repeated "
                                                 "id leaves already picked tasks dropped from the list")
